@@ -366,7 +366,7 @@ func (w *World) write(c *simClient, verb string, obj client.Object, apply func()
 	}
 	var before client.Object
 	if verb != "create" {
-		before = w.getStored(gvk, key)
+		before = w.cache[gvk][key]
 	}
 	if err := apply(); err != nil {
 		return err
@@ -383,8 +383,11 @@ func (w *World) write(c *simClient, verb string, obj client.Object, apply func()
 		after.SetGeneration(1)
 		w.rawPut(after)
 	case after != nil && before != nil && (verb == "update" || verb == "patch"):
-		// admission (mutating workload webhook) on UPDATE of workloads by any actor
-		if isWorkloadGVK(gvk) && w.Admission != nil {
+		// admission (mutating workload webhook) on UPDATE of workloads by any actor. A request
+		// that changes nothing skips it: the stored object was admitted before and the handlers
+		// are functions of (old, new) only (modelling assumption, saves ~20% run time because the
+		// Rollout controller re-issues an identical label patch on every reconcile).
+		if isWorkloadGVK(gvk) && w.Admission != nil && !reflect.DeepEqual(normalized(before), normalized(after)) {
 			mutated, aerr := w.Admission(before, after)
 			if aerr != nil {
 				w.rawPut(before) // request rejected: nothing persisted
@@ -411,8 +414,10 @@ func (w *World) write(c *simClient, verb string, obj client.Object, apply func()
 		after.SetResourceVersion(before.GetResourceVersion())
 		w.rawPut(after)
 		_ = copyInto(after, obj)
+		w.cachePut(gvk, key, after)
 		return c.post(op)
 	}
+	w.cachePut(gvk, key, after)
 	w.seq++
 	wr := &Write{Seq: w.seq, Actor: c.actor, Verb: verb, GVK: gvk, Key: key, Before: before, After: after}
 	w.record(wr)
